@@ -517,6 +517,9 @@ def checkC12 (client : Bool) (sc : Script) (tr : Trace) : Verdict :=
     if anyEv (· == .panic) tr then .fail "panic" else
     -- the probe is exactly one length-prefixed ping, and it comes first
     if ¬ isPrefixB probe rx then .fail "probe" else
+    -- … on every connection the client opens, not only the first
+    if (List.range sc.conns.length).any (fun k => k > 0 && (rxBytes k tr) != [] && !isPrefixB probe (rxBytes k tr))
+      then .fail "probe-on-reconnect" else
     if (match tr.findSome? (fun e => match e.e with | .ping b => some b | _ => none) with
         | some b => b != pingPayload | none => false) then .fail "setup:ping-marshal" else
     match observedVerdict client tr with
